@@ -297,7 +297,7 @@ func cmdCheck(args []string) int {
 	// vacuity: preconditions must be satisfiable; of the reachability canaries that share a name (exit paths of a
 	// function, body ends of a loop) at least one must be satisfiable
 	vacOK, vacUnknown := 0, 0
-	var deadReturns []string
+	var deadReturns, deadBranches []string
 	for name, sts := range vacuity {
 		anySat, anyUnknown := false, false
 		for _, st := range sts {
@@ -312,6 +312,12 @@ func cmdCheck(args []string) int {
 		if i := strings.Index(name, "#reach:return@"); i >= 0 {
 			if !anySat && !anyUnknown {
 				deadReturns = append(deadReturns, name[:i]+" "+name[i+len("#reach:return@"):])
+			}
+			continue
+		}
+		if i := strings.Index(name, "#reach:"); i >= 0 {
+			if !anySat && !anyUnknown {
+				deadBranches = append(deadBranches, name[:i]+" "+strings.Replace(name[i+len("#reach:"):], "@", " branch at ", 1))
 			}
 			continue
 		}
@@ -442,6 +448,10 @@ func cmdCheck(args []string) int {
 	for _, d := range degraded {
 		fmt.Printf("DEGRADED: %s -- not counted as proved; bounded stand-in used\n", d)
 	}
+	sort.Strings(deadBranches)
+	for _, d := range deadBranches {
+		fmt.Printf("NOTE: no path enters the %s under the contract\n", d)
+	}
 	sort.Strings(deadReturns)
 	for _, d := range deadReturns {
 		fmt.Printf("NOTE: no path reaches the return at %s under the contract (what the contract says about that exit is vacuous)\n", d)
@@ -519,6 +529,7 @@ func cmdCheck(args []string) int {
 		"slowest":                  slowest,
 		"vacuity":                  map[string]int{"requires_sat": vacOK, "inconclusive": vacUnknown},
 		"unreachable_returns":      deadReturns,
+		"unreachable_branches":     deadBranches,
 		"degraded_functions":       degraded,
 		"failed_obligations":       failedNames,
 		"known_findings_hit":       len(knownHit),
